@@ -48,6 +48,7 @@ def run(repo, chk):
     rule_d(chk, d)
     rule_e(repo, chk)
     rule_f(repo, chk)
+    rule_g(repo, chk)
 
 
 def _accounting(n):
@@ -329,3 +330,10 @@ def rule_f(repo, chk):
                         if Q.reaches(e.dst, a):
                             chk.ob('f', f.ref, 'when the currently handled event is tracked the new event is linked before it is queued',
                                    q is None, loc(f, tn.ast), path=pat.path_lines(q) if q else None, discr='tracked-implies-link')
+
+
+def rule_g(repo, chk):
+    chk.rule('C05.g', 'an event with generator handlers becomes done (and so can complete) only through the task stepper: every clause that retires a '
+                      'generator releases its share of the waiting count, continues the caller and attempts completion (the accounting decided for C06.b)')
+    n = chk.adopt('g', 'C06', repo, lambda o: o.rule == 'C06.b' and o.discr.split(':')[0] in ('caller-always-continued', 'decrement', 'complete-or-continue', 'retire'))
+    need(n >= 6, f'C05.g: only {n} accounting obligations of the task stepper found')
